@@ -27,6 +27,8 @@ m = re.search(r"(pkg/[A-Za-z0-9_/]+?)/?(?:[a-z0-9_]+_test\.go)?\s", head) or re.
 pkgdir = m.group(1).rstrip("/")
 if pkgdir.endswith(".go"):
     pkgdir = os.path.dirname(pkgdir)
+if os.environ.get("DEMO_PKG"):   # when the header comment names several directories
+    pkgdir = os.environ["DEMO_PKG"]
 m = re.search(r"-run\s+'?\"?([A-Za-z0-9_|^$()]+)", head)
 runre = m.group(1) if m else "Test"
 dst = os.path.join(wt, pkgdir, "zz_seed_demo_test.go")
